@@ -589,6 +589,13 @@ _Unknown.__neg__ = lambda self: self
 GAP = _GapUnknown()
 
 
+class _ProgExc(BaseException):
+    """an exception the program itself raises on the sample (int('x'), d[missing], ...), seen inside a try statement"""
+
+    def __init__(self, exc):
+        self.exc = exc
+
+
 class PState:
     def __init__(self, env, trace=None, yields=None):
         self.env = env
@@ -614,6 +621,7 @@ class PathEval:
         self.limit = limit
         self.gaps: list[str] = []
         self.depth = 0
+        self.try_depth = 0
 
     def gap(self, what: str):
         self.gaps.append(what)
@@ -633,6 +641,11 @@ class PathEval:
             raise
         except RecursionError:
             raise
+        except (ValueError, KeyError, IndexError, ZeroDivisionError) as ex:
+            if self.try_depth > 0:
+                raise _ProgExc(ex)
+            self.gap(f"{what or norm(e)[:50]}: {type(ex).__name__} {ex}")
+            return GAP
         except Exception as ex:
             self.gap(f"{what or norm(e)[:50]}: {type(ex).__name__} {ex}")
             return GAP
@@ -717,7 +730,11 @@ class PathEval:
             nxt = []
             for s in states:
                 s.trace.add(id(node))
-                f, l = self.stmt(node, s)
+                try:
+                    f, l = self.stmt(node, s)
+                except _Leave as lv:
+                    # a followed call inside the statement ends in a raise on every path
+                    f, l = [], [(s, "raise", None)]
                 nxt += f
                 lefts += l
             states = nxt
@@ -921,7 +938,10 @@ class PathEval:
             self._poison(s)
             return [], [(s, "return", v)]
         if isinstance(node, ast.Raise):
-            return [], [(s, "raise", None)]
+            cls = None
+            if node.exc is not None:
+                cls = norm(node.exc.func if isinstance(node.exc, ast.Call) else node.exc).split(".")[-1]
+            return [], [(s, "raise", cls)]
         if isinstance(node, ast.Continue):
             return [], [(s, "continue", None)]
         if isinstance(node, ast.Break):
@@ -945,14 +965,52 @@ class PathEval:
             if d is not None:
                 return self.stmt(d, s)
         if isinstance(node, ast.Try):
-            self.gap("try statement (handlers are not followed)")
-            f, l = self.block(node.body, [s])
-            if node.orelse and f:
-                f, l2 = self.block(node.orelse, f)
-                l += l2
-            if node.finalbody and f:
-                f, l2 = self.block(node.finalbody, f)
-                l += l2
+            def handler_for(name):
+                for h in node.handlers:
+                    if h.type is None:
+                        return h
+                    names = [norm(t).split(".")[-1] for t in (h.type.elts if isinstance(h.type, ast.Tuple) else [h.type])]
+                    if name in names or "Exception" in names or "BaseException" in names \
+                            or (name in ("KeyError", "IndexError") and "LookupError" in names) or (name == "ZeroDivisionError" and "ArithmeticError" in names):
+                        return h
+                return None
+            self.try_depth += 1
+            try:
+                f, l = self.block(node.body, [s])
+            except _ProgExc as pex:
+                self.try_depth -= 1
+                h = handler_for(type(pex.exc).__name__)
+                if h is None:
+                    if self.try_depth > 0:
+                        raise
+                    return [], [(s, "raise", type(pex.exc).__name__)]
+                if h.name:
+                    s.env[h.name] = UNKNOWN
+                f, l = self.block(h.body, [s])
+            else:
+                self.try_depth -= 1
+                # explicit raises of the body that a handler of this statement catches
+                l_keep = []
+                for ls, how, v in l:
+                    h = handler_for(v) if how == "raise" and isinstance(v, str) else None
+                    if h is not None:
+                        if h.name:
+                            ls.env[h.name] = UNKNOWN
+                        f2, l2 = self.block(h.body, [ls])
+                        f += f2
+                        l_keep += l2
+                    else:
+                        if how == "raise" and v is None and node.handlers:
+                            self.gap("a raise inside a try statement whose class is not read")
+                        l_keep.append((ls, how, v))
+                l = l_keep
+                if node.orelse and f:
+                    f, l2 = self.block(node.orelse, f)
+                    l += l2
+            if node.finalbody:
+                if f:
+                    f, l2 = self.block(node.finalbody, f)
+                    l += l2
             return f, l
         if isinstance(node, ast.With):
             for it in node.items:
